@@ -773,8 +773,10 @@ def _single_pass_rule(kind):
                     if isinstance(st, (ast.Assign, ast.AugAssign)):
                         tg = st.targets if isinstance(st, ast.Assign) \
                             else [st.target]
-                        if any(isinstance(t, ast.Name) and t.id == p
-                               for t in tg) and id(st.value) in node_of:
+                        if any(isinstance(n_, ast.Name) and n_.id == p
+                               and isinstance(n_.ctx, ast.Store)
+                               for t in tg for n_ in ast.walk(t)) \
+                                and id(st.value) in node_of:
                             rebind_nodes.add(node_of[id(st.value)])
                 for x in ast.walk(fn):
                     if not (isinstance(x, ast.Name) and x.id == p
